@@ -28,6 +28,7 @@ type pCase struct {
 	Logs    int        `json:"logs"`   // log messages enqueued in phase 1 (the receiver is a logger)
 	Phase2  [][]action `json:"phase2"` // enqueued while the receiver is parked inside the first HandleLog
 	Downs   int        `json:"downs"`  // monitored victims killed while the receiver is parked
+	Size    int        `json:"size,omitempty"` // MailboxSize of the receiver (0: unbounded); refused sends are not items
 	Tags    []string   `json:"tags,omitempty"`
 }
 
@@ -35,7 +36,10 @@ type itemMsg struct {
 	Sender, Kind, Seq int
 }
 type parkMsg struct{}
+var refused sync.Map // "sender-seq" of the sends a bounded mailbox refused (current case)
+
 type script struct {
+	Bounded bool
 	ID      int
 	Actions []action
 	PID     gen.PID
@@ -232,7 +236,11 @@ func (s *senderActor) HandleMessage(from gen.PID, message any) error {
 			}
 		}
 		if err != nil {
-			fmt.Fprintln(os.Stderr, "send failed:", err)
+			if sc.Bounded {
+				refused.Store(fmt.Sprintf("%d-%d", sc.ID, a.Seq), true) // a full queue of a bounded mailbox: not an item
+			} else {
+				fmt.Fprintln(os.Stderr, "send failed:", err)
+			}
 		}
 	}
 	close(sc.Done)
@@ -255,6 +263,7 @@ func genPCase(r *rand.Rand) pCase {
 	}
 	c.Downs = []int{0, 0, 1, 2}[r.Intn(4)]
 	c.Recv = []string{"actor", "actor", "sup", "pool"}[r.Intn(4)]
+	bounded := r.Intn(5) == 0
 	if c.Recv != "actor" {
 		// an exit signal ends a supervisor / pool, and neither can be a logger: Max priority instead
 		for _, acts := range c.Senders {
@@ -264,6 +273,14 @@ func genPCase(r *rand.Rand) pCase {
 				}
 			}
 		}
+		return c
+	}
+	if bounded {
+		// a bounded mailbox (each queue holds Size messages): the sends a full queue refuses are not items; whatever is
+		// accepted is handled by class and per-sender order as ever. No victims / log messages (their pushes have no sender
+		// that could be told)
+		c.Size = 1 + r.Intn(3)
+		c.Downs = 0
 		return c
 	}
 	if r.Intn(2) == 0 {
@@ -330,6 +347,7 @@ func nItems(acts []action) int {
 }
 
 func runPCase(node gen.Node, c pCase) (string, error) {
+	refused.Range(func(k, _ any) bool { refused.Delete(k); return true })
 	pseq++
 	name := gen.Atom(fmt.Sprintf("recv%d", pseq))
 	var victims []gen.PID
@@ -351,7 +369,7 @@ func runPCase(node gen.Node, c pCase) (string, error) {
 	case "pool":
 		factory = func() gen.ProcessBehavior { return &poolReceiver{recvCore: rc} }
 	}
-	rpid, err := node.SpawnRegister(name, factory, gen.ProcessOptions{})
+	rpid, err := node.SpawnRegister(name, factory, gen.ProcessOptions{MailboxSize: int64(c.Size)})
 	if err != nil {
 		return "", err
 	}
@@ -391,7 +409,7 @@ func runPCase(node gen.Node, c pCase) (string, error) {
 		spids = append(spids, sp)
 		d := make(chan struct{})
 		dones = append(dones, d)
-		node.Send(sp, script{ID: i + 1, Actions: acts, PID: rpid, Name: name, Alias: rc.alias, Done: d})
+		node.Send(sp, script{Bounded: c.Size > 0, ID: i + 1, Actions: acts, PID: rpid, Name: name, Alias: rc.alias, Done: d})
 		expected += nItems(acts)
 	}
 	for _, v := range victims {
@@ -417,6 +435,8 @@ func runPCase(node gen.Node, c pCase) (string, error) {
 			return "", fmt.Errorf("sender did not finish")
 		}
 	}
+	// what a bounded mailbox refused (the send returned an error) is not an item
+	refused.Range(func(_, _ any) bool { expected--; return true })
 	// every push has returned (sender scripts done, victims unregistered): the mailbox must now hold everything
 	deadline := time.Now().Add(10 * time.Second)
 	for {
@@ -491,6 +511,9 @@ func runPCase(node gen.Node, c pCase) (string, error) {
 		var l []string
 		for _, a := range acts {
 			if a.Kind == 9 {
+				continue
+			}
+			if _, no := refused.Load(fmt.Sprintf("%d-%d", i+1, a.Seq)); no {
 				continue
 			}
 			l = append(l, fmt.Sprintf("mk_item %d %d %d", i+1, a.Kind, a.Seq))
